@@ -824,6 +824,11 @@ func (as *AbacoSource) distributePackets(allpackets []*packets.Packet, now time.
 
 		cidx := gIndex(p)
 		grp := as.groups[cidx]
+		if grp == nil {
+			// A packet from a channel group that was not seen when the source started (or a stray
+			// datagram that happens to parse): there is no queue for it. Drop it rather than crash.
+			continue
+		}
 		grp.enqueuePacket(p, now)
 		// nextFrameNum is advanced by the block-assembly goroutine (distributeData), so read it atomically.
 		grp.updateFrameTiming(p, FrameIndex(atomic.LoadInt64((*int64)(&as.nextFrameNum))))
